@@ -865,8 +865,52 @@ func c06ListenerConflicts(c *core.Ctx, p c06Params) {
 }
 
 // c06Hostile: lookup never panics on any input string.
+// c06MountPaths: a mount or route path is a sequence of literal tokens. A path holding a
+// placeholder or wildcard token, an empty token or an invalid character is refused by
+// Mount and Route, on a Mux and on a Service, whatever the tree already holds; a literal
+// path is accepted. The verdict per path is the reference grammar's (the one C17 compares
+// the library's validators with); where that is unspecified nothing is asserted.
+func c06MountPaths(c *core.Ctx) {
+	paths := []string{"$id", "*", ">", "sub.$id", "$a.b", "a.*", "a.>", "*.a", "a.$x.b", "a..b", ".a", "a.", "a b", "a?b", "$", "a.$",
+		"a", "a.b", "a$b", "a*", "x>y.z", "~", "a-b_c", "a.b.c.d"}
+	for _, kind := range []string{"mux-mount", "mux-route", "service-mount", "service-route"} {
+		for _, path := range paths {
+			want := ref.ValidPath(path)
+			if want == -1 {
+				continue
+			}
+			var m *res.Mux
+			if strings.HasPrefix(kind, "service") {
+				m = res.NewService("svc").Mux
+			} else {
+				m = res.NewMux("root")
+			}
+			m.Handle("q.$id.x")
+			m.Handle("$first.y")
+			var pn interface{}
+			if strings.HasSuffix(kind, "mount") {
+				sub := res.NewMux("")
+				sub.Handle("$id")
+				pn = try(func() { m.Mount(path, sub) })
+			} else {
+				pn = try(func() { m.Route(path, func(sm *res.Mux) { sm.Handle("$id") }) })
+			}
+			c.Eval(1)
+			c.Obs("mount_paths_offered", 1)
+			switch {
+			case want == 0 && pn == nil:
+				c.Violation("C06/invalid-mount-path-accepted:"+kind, fmt.Sprintf("%s accepted the path %q, which is not a sequence of literal tokens", kind, path), map[string]interface{}{"kind": kind, "path": path})
+			case want == 1 && pn != nil:
+				c.Violation("C06/valid-mount-path-refused:"+kind, fmt.Sprintf("%s refused the literal path %q: %v", kind, path, pn), map[string]interface{}{"kind": kind, "path": path, "panic": fmt.Sprint(pn)})
+			}
+		}
+	}
+	c.Distinct("mount-paths")
+}
+
 func c06Hostile(c *core.Ctx, p c06Params) {
 	r := c.Rand
+	c06MountPaths(c)
 	hostile := []string{"", ".", "..", "a.", ".a", "a..b", "*", ">", "a.>", "a.*", "$x", "a.$x", "svc", "svc.", "svc..", "svc.>", " ", "a b", "a\x00b", "é.ü",
 		strings.Repeat("a.", 200) + "a", strings.Repeat(".", 100), strings.Repeat("a", 5000), "a?b", "a.b?q=1", "?"}
 	for i := 0; i < p.N; i++ {
